@@ -588,7 +588,8 @@ func contentList(computer *ComputedStyle, values pr.ContentProperties) (pr.Conte
 		case "attr()":
 			attr, ok := value.Content.(pr.AttrData)
 			if !ok || attr.TypeOrUnit != "string" {
-				panic(fmt.Sprintf("invalid attr() property : %v", value.Content))
+				// (the validator accepts attr() types that a content list cannot hold, e.g. url)
+				return nil, fmt.Errorf("invalid attr() in a content list : %v", value.Content)
 			}
 			var err error
 			computedValue, err = computeAttrFunction(computer, attr)
